@@ -3,6 +3,8 @@ package e2
 import (
 	"encoding/json"
 	"fmt"
+	"runtime"
+	"time"
 	"strings"
 	"sync"
 	"sync/atomic"
@@ -189,7 +191,29 @@ type histRunner struct {
 	check  func(HistInput) (string, int, int)
 }
 
+// memGuard turns a runaway allocation of the code under test (a decode loop that
+// appends forever) into a verdict before the kernel kills the process.
+var memGuardOnce sync.Once
+
+func memGuard(r *chk.Run) {
+	memGuardOnce.Do(func() {
+		go func() {
+			var ms runtime.MemStats
+			for {
+				time.Sleep(300 * time.Millisecond)
+				runtime.ReadMemStats(&ms)
+				if ms.HeapAlloc > 12<<30 {
+					r.Report(chk.Violation{Key: "runaway-memory", What: "the heap grew beyond 12 GiB while streaming small histories (a decoder loop that never terminates)", Kind: "history", Replay: map[string]string{"note": "see the histories in flight in the log"}})
+					r.SetExhaustive(false)
+					r.Finish()
+				}
+			}
+		}()
+	})
+}
+
 func newHistRunner(r *chk.Run, prop string, check func(HistInput) (string, int, int)) *histRunner {
+	memGuard(r)
 	hr := &histRunner{r: r, prop: prop, jobs: make(chan HistInput, 256), check: check}
 	for i := 0; i < r.Workers(); i++ {
 		hr.wg.Add(1)
@@ -203,8 +227,15 @@ func newHistRunner(r *chk.Run, prop string, check func(HistInput) (string, int, 
 					hr.nontr.Add(1)
 				}
 				if why == "HUNG" {
+					// not a scheduling matter (E1 decides those on the unchanged
+					// code): the real Stream made no progress for 60 s on a
+					// well-formed history served completely by the master, e.g. a
+					// decode loop that never ends. Stop at once: stuck goroutines
+					// may keep allocating.
 					hr.hung.Add(1)
-					chk.Fatalf("%s: Stream did not return within 60 s on units=%v cfg=%s (a hang is decided exactly by C05; E2 only reports it)", prop, in.Units, CfgName(in.Cfg))
+					r.Report(chk.Violation{Key: "no-progress", What: fmt.Sprintf("units=%v cfg=%s start=%s:%d: Stream did not return within 60 s although the master served the complete history and an EOF packet", in.Units, CfgName(in.Cfg), in.StartFile, in.StartPos), Kind: "history", Replay: in})
+					r.SetExhaustive(false)
+					r.Finish()
 				}
 				if why != "" {
 					in2 := in
